@@ -127,6 +127,27 @@ class C03(L1Prop):
                     ops = list(PREFIX2) + ["conc " + mode + " " + " || ".join(reqs) + " ## " + " ".join(s), "dump 1", "dump 5"]
                     out.append(Case(f"c03-{k}", ops, {"reqs": reqs, "group": f"{a}+{b}", "sched": s, "cmode": mode, "prefix": list(PREFIX2)}, mode="http"))
                     k += 1
+        # several server instances on one data directory, used in turn (no overlap at all): an
+        # instance must not answer from what it remembers of its own earlier requests
+        for j in range(sizes(tier, 10, 120)):
+            ops = []
+            ninst = rng.choice([2, 2, 3])
+            for step in range(rng.randint(6, 16)):
+                ops.append(f"inst {rng.randrange(ninst)}")
+                c = rng.choice([1, 1, 2])
+                r = rng.random()
+                if r < 0.6:
+                    par = rng.choice(["latest:%d" % c] * 4 + ["nil", "anc:%d:1" % c])
+                    ops += ["dumpall", f"http POST av hyph={par} hyph={c} history b:{step},{j % 250}", "dumpall"]
+                elif r < 0.75:
+                    ops.append(f"http POST as hyph=latest:{c} hyph={c} snapshot b:9,{step}")
+                elif r < 0.9:
+                    ops.append(f"http GET gcv hyph={rng.choice(['latest', 'anc'])}:{c}:1 hyph={c} absent e")
+                else:
+                    ops.append(f"http GET snap - hyph={c} absent e")
+            ops += ["inst 0", "dumpall", "walk 1", "walk 2"]
+            out.append(Case(f"c03-inst-{j}", ops, {"inst": True, "only": "sqlite", "group": "instances", "sched": [], "cmode": "multi"}, mode="http"))
+            k += 1
         triples = [("AVnew", "ASnewP", "AVnewP"), ("AVnew", "AVnew", "GCVnew"), ("AVnewP", "ASnewP", "GSnew"),
                    ("AVlatest", "AVlatest", "ASlatest"), ("AVlatest", "GCVlatest", "GS"), ("AVnew", "ASnewNil", "AVnew")]
         nsch = sizes(tier, 12, 300)
@@ -156,6 +177,18 @@ class C03(L1Prop):
         return None, 0
     def oracle(self, case, trace, backend):
         fails = []
+        if case.meta.get("inst"):
+            # one-at-a-time by construction: every AddVersion must be a compare-and-append on the
+            # state the directory holds, whichever instance serves it; never a 5xx
+            from .props_l1 import http_as_lib, cas_check
+            for (o, ri, rm) in trace:
+                if o.startswith("http ") and HResp(ri).status >= 500:
+                    fails.append(f"`{o[:60]}` answered {HResp(ri).status} by one of several instances used in turn")
+            t2 = http_as_lib(trace)
+            for i2, (o, ri, rm) in enumerate(t2):
+                if o.startswith("av "):
+                    cas_check(i2, t2, fails, True)
+            return [f + " (several server instances on one directory, used in turn)" for f in fails]
         i, n = self._block(trace)
         if i is None:
             return fails
@@ -173,6 +206,8 @@ class C03(L1Prop):
                 fails.append(f"request {k} `{o[:70]}` answered `{ri.split(' | ')[0][:60]}` merely because another request overlapped (schedule {case.meta['sched']}, {backend}/{case.meta['cmode']})")
         return fails
     def derive(self, case, trace, backend):
+        if case.meta.get("inst"):
+            return []
         reqs = case.meta["reqs"]
         out = []
         for perm in itertools.permutations(range(len(reqs))):
@@ -223,6 +258,8 @@ class C03(L1Prop):
             return {"kind": "as_in_creation_window"}
         return None
     def nontrivial(self, case, trace):
+        if case.meta.get("inst"):
+            return True
         s = [x for x in case.meta["sched"] if x.isdigit()]
         return len(set(s)) >= 2 or any("!" in x for x in case.meta["sched"])
     def distinct_key(self, case, trace):
